@@ -686,6 +686,16 @@ pub mod rt {
 
     /// Logical release; not a scheduling point (blocked threads simply become enabled).
     fn release(&self, me: u32, id: u64, mode: Mode) {
+      // A release is invisible to blocking acquisitions (switching threads only before acquisitions loses no behaviour),
+      // but try_read / try_write / try_lock OBSERVE whether a lock is held: once the program under test has used one of
+      // them, a thread may be descheduled while it still holds the lock - a scheduling point just BEFORE the logical release.
+      {
+        let mut st = self.lock();
+        if TRY_SEEN.load(SeqCst) && !::std::thread::panicking() && !matches!(st.threads[me as usize].state, TState::Finished) && st.done.is_none() {
+          self.tr(&mut st, me, "pre-release", Some(id), None);
+          self.schedule(st, me);
+        }
+      }
       let mut st = self.lock();
       if let Some(l) = st.locks.get_mut(&id) {
         match mode {
@@ -702,9 +712,7 @@ pub mod rt {
         }
       }
       self.tr(&mut st, me, "release", Some(id), None);
-      // A release is invisible to blocking acquisitions (switching threads only before acquisitions loses no behaviour),
-      // but try_read / try_write / try_lock OBSERVE whether a lock is held: once the program under test has used one of
-      // them, every release becomes a scheduling point as well.
+      // ... and one just after it (the lock is observably free before the releasing thread goes on)
       if TRY_SEEN.load(SeqCst) && !::std::thread::panicking() && !matches!(st.threads[me as usize].state, TState::Finished) && st.done.is_none() {
         self.schedule(st, me);
       }
